@@ -23,6 +23,7 @@ def run(rep, facts, tier):
     # must admit it in every row an honest prover can be in (C13's HINT and honest GUARD rows) - the statically visible precondition of clause 3
     from . import c13
     from .common import import_rules
-    nh = import_rules(rep, c13, facts, tier, "HONEST", pred=lambda k: k.startswith("HINT/") or k.startswith("HONEST/"))
-    rep.rules += ["HONEST (C13's HINT and honest guard-row instances)"]
+    nh = import_rules(rep, c13, facts, tier, "HONEST", pred=lambda k: k.startswith("HINT/") or k.startswith("HONEST/") or (k.startswith("DEFAULT/") and "AllocVar" in k))
+    rep.rules += ["HONEST (C13's HINT and honest guard-row instances; its DEFAULT instances on AllocVar - an overridden new_input / new_witness / "
+                  "new_constant is an allocation entry whose variable count the INPUT rule did not see)"]
     rep.floor("honest_witness_instances", nh, 6)
